@@ -9,7 +9,13 @@ Correspondence (Drivers/C07.lean):
   (b) flat   — default sharing and `PlanningMixin` index sets against the allocator model;
   (c) route  — parameter classification: the effective parameter values recovered from the real
                (A, b) of affine instances against `effParam`;
-  (d) isolation — pairs of real transcriptions that differ only in ANOTHER member's data.
+  (d) isolation — pairs of real transcriptions that differ only in ANOTHER member's data;
+  (e) code level — the reference definitions of `discretize_control` + base member loop (Model/C07Code.lean, what
+               harness/translate_c07.py regenerates from the source) executed on the REAL branch dictionary in its
+               dictionary order: absolute index values, running count, order hypothesis (`ChainOf`);
+  (f) accessors — every member's objective / constraints refer to the controls through state_at(); oracle: the NLP
+               objective gradient, the member cap rows and direct state_at / control_at / der_at calls (members in a
+               generated order) are built on the member's OWN control entries.
 Independent oracle: the sharing predicates of the property evaluated directly on the real index
 sets / branch dictionary, and the metamorphic isolation comparison itself.
 """
@@ -23,7 +29,7 @@ import numpy as np
 
 from .c07_synth import Spec, Transcription, syn_class
 from .common import fr, quiet_fd
-from .translate_c07 import gen_cluster
+from .translate_c07 import gen_alloc, gen_cluster
 
 INF = float("inf")
 
@@ -178,6 +184,162 @@ def gen_tree_case_adv(c):
                 controls=controls, ctimes={}, planning=None, mixins=("tree",), rational=False)
 
 
+# ---------------------------------------------------------------------------------------------
+# controls referred to through the accessors (state_at / control_at / der_at) by every member
+
+
+def ctrl_ref_weight(m, ui, i):
+    """member-specific weight of control `ui` at time index `i` in member m's objective"""
+    return (m + 1) + 0.25 * (ui + 1) + 0.0625 * (i + 1)
+
+
+def ctrl_ref_cap(m):
+    """member-specific upper limit on the final control value (an unusual number: finds the row)"""
+    return 1.5137 - 0.75 * m
+
+
+def ctrl_ref_times(n):
+    """time indices (into times()) at which member objectives refer to the controls"""
+    return sorted({n - 1, n // 2, 1 if n > 1 else 0})
+
+
+def add_control_refs(spec, controls, n):
+    """every member's objective and constraints refer to the control inputs through state_at() with its own member
+    index: objective(m) = sum w(m, u, i) * u(t_i), constraints(m) = [u(t_final) <= cap(m) for the first control]"""
+    sel = ctrl_ref_times(n)
+
+    def objective(m):
+        return [(ctrl_ref_weight(m, ui, i), (("at", u, i),)) for ui, u in enumerate(controls) for i in sel]
+
+    def constraints(m):
+        return [([[(1.0, (("at", controls[0], n - 1),))]], -INF, ctrl_ref_cap(m))] if controls else []
+
+    spec.objective = objective
+    spec.constraints = constraints
+    return spec
+
+
+def interp_weights(t, stamps):
+    """weights of the linear interpolation at `t` over `stamps` (constant extrapolation)"""
+    stamps = list(stamps)
+    w = [0.0] * len(stamps)
+    if t <= stamps[0]:
+        w[0] = 1.0
+    elif t >= stamps[-1]:
+        w[-1] = 1.0
+    else:
+        for j in range(len(stamps) - 1):
+            if stamps[j] <= t <= stamps[j + 1]:
+                a = (t - stamps[j]) / (stamps[j + 1] - stamps[j])
+                w[j], w[j + 1] = 1.0 - a, a
+                break
+    return w
+
+
+def accessor_oracle(c, tag, view, tr, controls, ctimes, ts, E, idx, rng):
+    """ISOLATION THROUGH THE ACCESSORS: whatever member m's objective / constraints / goals obtain from state_at(),
+    control_at() or der_at() for a control input must be built on member m's OWN control entries (the index sets of
+    state_vector(control, m)), also when the same (variable, time) was looked up for another member before.
+    (1) the NLP objective of the real transcription: its gradient is the sum of the members' weights on their own entries;
+    (2) the member caps: the constraint row with member m's bound refers to member m's final control entry;
+    (3) direct calls after the transcription, members visited in a generated order."""
+    import casadi as ca
+
+    pr = tr.pr
+    n = len(ts)
+    N = tr.N
+    own = {(ui, m): list(idx[ui][m]) for ui in range(len(controls)) for m in range(E)}
+    stamps = {ui: list(ctimes.get(u, ts)) for ui, u in enumerate(controls)}
+    nom = {ui: float(pr.variable_nominal(u)) for ui, u in enumerate(controls)}
+    # (1) objective gradient
+    af = tr.affine_f()
+    if af is None:
+        c.fail("objective referring to controls through state_at() is not affine in the decision vector", view)
+    else:
+        grad = af[0]
+        want = np.zeros(N)
+        for m in range(E):
+            pm = float(pr.ensemble_member_probability(m))
+            for ui in range(len(controls)):
+                for i in ctrl_ref_times(n):
+                    for j, wj in enumerate(interp_weights(ts[i], stamps[ui])):
+                        if wj:
+                            want[own[(ui, m)][j]] += pm * ctrl_ref_weight(m, ui, i) * wj * nom[ui]
+        if np.max(np.abs(grad - want)) > 1e-9:
+            bad = int(np.argmax(np.abs(grad - want)))
+            c.fail("objective: a member's state_at(control) is not built on that member's own control entry", view,
+                   dict(entry=bad, got=float(grad[bad]), want=float(want[bad])))
+        else:
+            c.hit(tag + "/accessor/objective-own-entries")
+    # (2) member caps
+    if controls:
+        rows = tr.g_sparsity_rows()
+        for m in range(E):
+            cand = [r for r in range(tr.ng) if abs(tr.ubg[r] - ctrl_ref_cap(m)) < 1e-12 and tr.lbg[r] == -INF]
+            if len(cand) != 1:
+                c.fail("constraint of member %d (cap on the final control) not found exactly once in g" % m, view, cand)
+                continue
+            if rows[cand[0]] != {own[(0, m)][-1]}:
+                c.fail("constraints(%d): state_at(control, tf, ensemble_member=%d) is not member %d's own control entry"
+                       % (m, m, m), view, dict(row=cand[0], columns=sorted(rows[cand[0]]), own=own[(0, m)][-1]))
+            else:
+                c.hit(tag + "/accessor/constraint-own-entry")
+    # (3) direct calls, members in a generated order, times on and off the control stamps
+    order = list(range(E))
+    mode = rng.choice(["ascending", "descending", "shuffled"])
+    if mode == "descending":
+        order.reverse()
+    elif mode == "shuffled":
+        rng.shuffle(order)
+    probes = []
+    for ui, u in enumerate(controls[:2]):
+        cand_t = [ts[0], ts[-1], ts[n // 2], 0.5 * (ts[0] + ts[1]), 0.5 * (ts[-2] + ts[-1])]
+        for t in cand_t[:4]:
+            for m in order:
+                for kind in ("state_at", "control_at", "state_at/scaled", "der_at"):
+                    probes.append((ui, u, t, m, kind))
+    exprs = []
+    for ui, u, t, m, kind in probes:
+        if kind == "state_at":
+            e = call(pr.state_at, u, t, ensemble_member=m)
+        elif kind == "control_at":
+            e = call(pr.control_at, u, t, ensemble_member=m)
+        elif kind == "state_at/scaled":
+            e = call(pr.state_at, u, t, ensemble_member=m, scaled=True)
+        else:
+            e = call(pr.der_at, u, t, ensemble_member=m)
+        if e[0] == "raise":
+            c.fail("%s(control) raised after a transcription: %s" % (kind, e[1]), view, dict(control=u, t=t, member=m))
+            return
+        exprs.append(ca.MX(e[1]))
+    if not exprs:
+        return
+    stack = ca.vertcat(*exprs)
+    sp = ca.jacobian(stack, tr.X).sparsity()
+    deps = [set() for _ in exprs]
+    r_, c_ = sp.get_triplet()
+    for a, b in zip(r_, c_):
+        deps[a].add(b)
+    Xr = np.array([rng.uniform(-3.0, 3.0) for _ in range(N)])
+    vals = np.array(ca.Function("acc", [tr.X], [stack])(Xr)).ravel()
+    for q, (ui, u, t, m, kind) in enumerate(probes):
+        mine = set(own[(ui, m)])
+        if not deps[q] <= mine:
+            c.fail("%s(control, t, ensemble_member=m) depends on control entries that are not member m's" % kind, view,
+                   dict(control=u, t=t, member=m, order=order, foreign=sorted(deps[q] - mine)[:5]))
+            return
+        if kind != "der_at":
+            wv = sum(wj * Xr[own[(ui, m)][j]] for j, wj in enumerate(interp_weights(t, stamps[ui])))
+            if kind != "state_at/scaled":
+                wv *= nom[ui]
+            if abs(vals[q] - wv) > 1e-9 * max(1.0, abs(wv)):
+                c.fail("%s(control, t, ensemble_member=m) is not the interpolation of member m's control entries" % kind, view,
+                       dict(control=u, t=t, member=m, got=float(vals[q]), want=float(wv)))
+                return
+    c.hit(tag + "/accessor/direct-calls-own-entries")
+    c.hit(tag + "/accessor/order-" + mode)
+
+
 def tree_spec(case):
     controls = case["controls"]
     s = Spec(
@@ -188,7 +350,7 @@ def tree_spec(case):
         bnds={u: (-10.0, 10.0) for u in controls},
         tree=dict(forecast_variables=list(case["use"]), branching_times=list(case["bts"]), k=case["k"]),
     )
-    return s
+    return add_control_refs(s, controls, len(case["ts"]))
 
 
 def dist_tables(case):
@@ -370,6 +532,7 @@ def stream_tree(c, N, rational, adversarial=False):
                           bts=[fr(b) for b in case["bts"]], ntimes=len(ts),
                           dist=[[[fr(x) for x in row] for row in tab] for tab in tabs], ctrl=ctl))
     outs = c.model(lines)
+    pending = []
     for q, case in enumerate(cases):
         s = tree_spec(case)
         cls = syn_class(case["mixins"])
@@ -416,6 +579,7 @@ def stream_tree(c, N, rational, adversarial=False):
         bad = tree_oracle(c, case, branches, idx, tr.N)
         if bad:
             c.fail("control tree sharing predicate violated: %s" % (bad[0][0],), view, bad[:5])
+        accessor_oracle(c, "tree", view, tr, case["controls"], case["ctimes"], case["ts"], case["E"], idx, rng)
         if outs is None:
             continue
         mo = outs[q]
@@ -443,6 +607,28 @@ def stream_tree(c, N, rational, adversarial=False):
                 state_entries.update(tr.idx(v, m))
         if tr.N - len(state_entries) != mo["count"]:
             c.disagree("number of control entries", view, mo["count"], tr.N - len(state_entries))
+        pending.append((lines[q], view, branches, idx, tr.N - len(state_entries)))
+    # code-level tie: the reference definitions of discretize_control + the base member loop (Model/C07Code.lean, what
+    # the translator regenerates from the source and the theorems of Gen/ControlTreeAlloc.lean are about) are executed
+    # on the REAL dictionary in its dictionary order; absolute index values and the count must be the code's, and the
+    # dictionary order must satisfy the hypothesis of those theorems (a member's branches come in increasing depth)
+    if pending:
+        lines2 = [dict(op="codeloop", E=ln["E"], k=ln["k"], t0=ln["t0"], bts=ln["bts"], dist=ln["dist"], ctrl=ln["ctrl"],
+                       brs=[[list(b), list(mem)] for b, mem in br.items()]) for ln, _, br, _, _ in pending]
+        outs2 = c.model(lines2)
+        for (ln, view, br, idx, ncontrol), mo2 in zip(pending, outs2 or []):
+            if not isinstance(mo2, dict):
+                c.disagree("code-level model of discretize_control rejects the real dictionary", view, mo2, None)
+                continue
+            if not mo2["chain"]:
+                c.disagree("dictionary order of control_tree_branches: a member's branches are not the model's chain in "
+                           "increasing depth", view, None, [[list(b), list(mem)] for b, mem in br.items()])
+            if mo2["idx"] != idx:
+                c.disagree("control index values (code-level model of discretize_control vs state_vector)", view, mo2["idx"], idx)
+            else:
+                c.hit("tree/code-level-index-values-equal")
+            if mo2["count"] != ncontrol:
+                c.disagree("running count of discretize_controls (code-level model)", view, mo2["count"], ncontrol)
 
 
 def stream_tree_malformed(c):
@@ -540,6 +726,7 @@ def stream_flat(c, N):
                  ctimes=case["ctimes"], planning=planning,
                  eqs=[[(1.0, ("der(x0)",))] + [(-1.0, (u,)) for u in controls]],
                  bnds={u: (-10.0, 10.0) for u in controls})
+        add_control_refs(s, controls, len(ts))
         cls = syn_class(() if planning is None else ("planning",))
         r = call(lambda: Transcription(cls(spec=s)))
         c.count(("flat", E, len(controls), None if planning is None else len(planning), bool(case["ctimes"])))
@@ -566,6 +753,7 @@ def stream_flat(c, N):
                 c.fail("two control variables share entries", case, idx)
         if flat and (min(flat) < 0 or max(flat) >= tr.N):
             c.fail("control index out of range", case, idx)
+        accessor_oracle(c, "flat", case, tr, controls, case["ctimes"], ts, E, idx, rng)
         if outs is None:
             continue
         mo = outs[q]
@@ -589,7 +777,11 @@ def run(c):
         "near coincidences; two fifths of the tree instances are the SECOND transcription of one object whose first "
         "run had fully separated forecasts; adversarial tree stream: a planted configuration x < a < c < b < y (b identical to a, "
         "c closer to a than a's seed x, seeds at the extreme indices) with more patterns than k, 2-3 branching "
-        "times, 2-3 forecast samples per window; perturbations move one member towards / away from exact and near coincidences"
+        "times, 2-3 forecast samples per window; perturbations move one member towards / away from exact and near coincidences; "
+        "accessors: in every tree / flat / planning instance each member's objective is a member-specific weighted sum of "
+        "state_at(control, t_i, ensemble_member=m) (last, middle, second stamp; controls with own coarser stamps are "
+        "interpolated) and member m caps its final control; after the transcription state_at / control_at / scaled / der_at "
+        "are called for every member in ascending, descending or shuffled order at stamps and between stamps"
     )
     c.assumptions = [
         "the distance table of a level is data of the model: sum over forecast variables of the 2-norm of the "
@@ -602,9 +794,18 @@ def run(c):
         "branch() to model terms (trusted); first seed, score array + stop rule and the allocation scan are proved equal "
         "to the model's selectReps / moreReps / nearestRep on every run, the loop skeleton around them is matched "
         "structurally only",
+        "source translation, second module (Gen/ControlTreeAlloc.lean): distance fill over an abstract norm (np.linalg.norm "
+        "is a parameter `norm2`; that the per-variable distance is a pseudo-metric is a hypothesis of "
+        "identical_forecasts_not_separated), discretize_control of the tree (boolean-mask writes, block cache), base "
+        "discretize_control + member loop, index dtype, per-member accessors inside the member loops of transcribe(), "
+        "symbol-cache key of state_at(); trusted: the construct table, NumPy boolean-mask assignment / np.max / "
+        "list(range) semantics as modelled by writeMask / readMask / foldl max / List.range', dict iteration = insertion "
+        "order (the order hypothesis ChainOf is checked on every real dictionary), distinct key tuples render as "
+        "distinct cache-key strings; transcribe() member loops: only the listed accessor kinds are scanned, "
+        "comprehension-level uses and the deliberate member-0 parameter values for symbolic bounds are outside",
     ]
     warnings.filterwarnings("ignore")
-    c.prove(extra=gen_cluster(c))
+    c.prove(extra=gen_cluster(c) + gen_alloc(c))
     stream_tree_malformed(c)
     stream_int16(c)
     stream_flat(c, c.n(40, 600))
@@ -620,7 +821,12 @@ def run(c):
         "transcriptions (rows/bounds/seed/objective gradient of every untouched member identical) and reads the "
         "effective parameter values off the real (A, b) for the routing model; the unbounded claims are the theorems. "
         "The int16 precondition (F10) is probed at 32767 / 32768 / 32769 control entries (accept, accept, "
-        "OverflowError). Not exercised: dynamic parameters, per-member history of a SHARED control (one decision variable for all members by design)."
+        "OverflowError). Code-level tie: the translated definitions of discretize_control and of the base member loop are run by "
+        "the Lean driver on the real dictionary (dictionary order) and must give the code's absolute index values and count. "
+        "Accessor stream: objective gradient / member cap rows of the real NLP and direct accessor calls must refer to the "
+        "member's own control entries. Not exercised: dynamic parameters, per-member history of a SHARED control (one decision "
+        "variable for all members by design), the t0 derivative of an algebraic variable taken from the member's history "
+        "(transcribe(), first member loop: covered by the generated obligation memberUsesGen_own only)."
     )
 
 
@@ -831,7 +1037,8 @@ def perturb_other(rng, dt, mstar):
             if dt["hist"][mstar]:
                 x = rng.choice(sorted(dt["hist"][mstar]))
                 tsx, vs = dt["hist"][mstar][x]
-                d2["hist"][mstar][x] = (list(tsx), [(v + 1.0 if v == v else v) for v in vs])
+                # not a uniform shift: slopes of the history change too
+                d2["hist"][mstar][x] = (list(tsx), [(v + 1.0 + 0.75 * q if v == v else v) for q, v in enumerate(vs)])
             else:
                 d2["hist"][mstar] = {"x0": ([dt["ts"][0]], [pick_val(rng)])}
         elif kind == "bounds":
